@@ -93,6 +93,7 @@ void holder_died(int id, int v, bool ok, const char *kind) {
 void holder_value(int id, int v) { Guard g; sim_obj_value(id, v); }
 
 // ---------------------------------------------------------------- structs
+int recSum(const Rec *r) { Guard g; return r->count[0] + 10 * r->count[1] + 100 * r->count[2] + 1000 * r->tail + static_cast<int>(2 * (r->w[0] + r->w[1])) * 10000 + static_cast<int>(r->after) * 1000000; }
 int ptSum(const Pt *p) { Guard g; return p->x * 10 + static_cast<int>(p->y * 2); }
 void ptOut(Pt *p, int x) { Guard g; p->x = x; p->y = x + 0.5; }
 void ptScale(Pt *p, int k) { Guard g; p->x *= k; p->y *= k; }
